@@ -102,10 +102,39 @@ class ShimTorch(types.ModuleType):
         return mk(_filled(tuple(size), 0), dtype)
 
 
+def unnest(r):
+    """numpy merges nested numeric arrays into one array, but keeps 0-d/n-d *object* arrays as elements of an
+    object array.  Restore the numeric behaviour for object arrays of proxies."""
+    if isinstance(r, np.ndarray) and r.dtype == object and r.size:
+        flat = list(r.reshape(-1))
+        if any(isinstance(e, np.ndarray) and e.ndim == 0 for e in flat):
+            flat = [e[()] if isinstance(e, np.ndarray) and e.ndim == 0 else e for e in flat]
+            out = np.empty(len(flat), dtype=object)
+            for i, e in enumerate(flat):
+                out[i] = e
+            r = out.reshape(r.shape)
+        if all(isinstance(e, np.ndarray) for e in flat):
+            shp = flat[0].shape
+            if all(e.shape == shp for e in flat):
+                inner = [unnest(e if e.dtype == object else e.astype(object)) for e in flat]
+                out = np.empty((len(inner),) + inner[0].shape, dtype=object)
+                for i, e in enumerate(inner):
+                    out[i] = e
+                return out.reshape(r.shape + inner[0].shape)
+    return r
+
+
+def sym_np_array(x, *a, **k):
+    r = np.array(x, *a, **k)
+    return unnest(r)
+
+
 class ShimNumpy(types.ModuleType):
     def __init__(self, overrides=None):
         super().__init__("numpy")
-        self.__dict__["_ov"] = dict(overrides or {})
+        ov = {"array": sym_np_array, "asarray": lambda x, *a, **k: unnest(np.asarray(x, *a, **k))}
+        ov.update(overrides or {})
+        self.__dict__["_ov"] = ov
 
     def __getattr__(self, name):
         ov = self.__dict__["_ov"]
